@@ -91,7 +91,11 @@ def check(ids, extra_props=None):
             continue
         try:
             t0 = time.time()
-            rc, out = sh("bin/check %s" % pid, cwd=ROOT, timeout=3000)
+            try:
+                rc, out = sh("bin/check %s" % pid, cwd=ROOT, timeout=3000)
+            except subprocess.TimeoutExpired:
+                rc, out = 124, "bin/check %s did not finish within 3000 s" % pid
+                sh("pkill -9 -f '%s/run/verifh'; pkill -9 -f '%s/run/driver'" % (ROOT, ROOT))
             res["check_rc"] = rc
             res["check_out"] = out[-1500:]
             res["check_s"] = round(time.time() - t0, 1)
